@@ -63,6 +63,8 @@ def eval_case(ctx, case):
     steps = case.get("steps") or [mapping]
     v = []
     sig = {"layout": case["layout"], "steps": len(steps), "extra_new": bool(case.get("extra"))}
+    if case.get("late"):
+        sig["late_dr"] = True
     stats = {"cmds": 0}
 
     def V(kind, detail, **extra):
@@ -79,7 +81,7 @@ def eval_case(ctx, case):
         desc = f"{case['layout']} step {si + 1} renames {renamed}"
         # (6) without -dr: missing plus new
         if si == 0 and renamed:
-            r0, _ = run(ctx, t, ops.create("", fmts), now); stats["cmds"] += 1
+            r0, post0 = run(ctx, t, ops.create("", fmts), now); stats["cmds"] += 1
             if r0.exit != 10:
                 V("plain-create-not-10", f"{desc}: create without -dr exits {r0.exit}, expected 10", exit=r0.exit)
             else:
@@ -89,7 +91,9 @@ def eval_case(ctx, case):
             r0v, _ = run(ctx, t, ["verify", {"root": ""}], now); stats["cmds"] += 1
             if r0v.exit == 0:
                 V("plain-verify-accepts", f"{desc}: verify accepts the renamed tree without any -dr generation")
-        # (3) create -dr
+        # (3) create -dr  (case 'late': only after a plain create has already recorded the new paths and reported the old ones missing)
+        if case.get("late") and si == 0 and renamed and r0.exit == 10:
+            t = post0
         r1, post = run(ctx, t, ops.create("", fmts, dr=True), now + 10); stats["cmds"] += 1
         if r1.exc is not None or r1.exit != 0:
             V("dr-create-fails", f"{desc}: create -dr exit {r1.exit} {r1.exc}\n{r1.err[-400:]}", exit=r1.exit,
@@ -178,6 +182,8 @@ def main(tier, seed):
             cases.append({"layout": name, "base": base, "mapping": mp, "fmts": fmts})
             if name == "flat":
                 cases.append({"layout": name, "base": base, "mapping": mp, "fmts": fmts, "extra": True})
+                if any(o != n for o, n in mp.items()):
+                    cases.append({"layout": name, "base": base, "mapping": mp, "fmts": fmts, "late": True})
         # chained renames: one step per generation over 2 (thorough 3) generations
         if name == "flat":
             singles = [mp for mp in asg if sum(o != n for o, n in mp.items()) >= 1]
@@ -218,13 +224,13 @@ def main(tier, seed):
         trans += st["cmds"]
         n = sum(o != n for o, n in case["mapping"].items())
         eng.outcome((case["layout"], n, "viol" if vs else "ok"))
-        states.add((case["layout"], tuple(sorted(case["mapping"].items())), len(case.get("steps") or [0])))
+        states.add((case["layout"], tuple(sorted(case["mapping"].items())), len(case.get("steps") or [0]), bool(case.get("late"))))
     for cc in cases[:: max(1, len(cases) // 6)]:
         eng.sample({"layout": cc["layout"], "steps": cc.get("steps") or [cc["mapping"]], "extra_new_file": bool(cc.get("extra"))})
     cov = {"states": len(states), "transitions": trans, "traces_validated_against_impl": trans, "exhaustive": True, "cases": len(cases),
            "rule": "sealed tree with 3 (thorough 4) files of pairwise distinct content in two directories: every assignment "
                    "file -> {stay, rename in place, move to the other directory, move+rename} (fresh target names, so no swaps), "
-                   "with and without an unrelated new file, one- and two-generation histories, a history in which every file was first "
+                   "with and without an unrelated new file, with -dr given at once or only after a plain create has recorded the new paths, one- and two-generation histories, a history in which every file was first "
                    "recorded in a different format and the rename generation asks for yet another one, a nested child history, and chained "
                    "renames over 2 (thorough 3) generations; per rename step: plain create => 10 naming the old paths and verify "
                    "!= 0; create -dr => exit 0, new path recorded with previousPath = former path, nothing reported missing; then "
